@@ -6,7 +6,10 @@ from common import run_driver
 RULE = ('assignment histories on a CsrMatrixBuilder (exhaustive: every sequence of length <= 3 over all cells x values {1,-1,2} '
         'for the small shapes listed in exhaustive_streams; random: shapes up to 6x7 incl. 0-width/0-height, up to 40 assignments, '
         'out-of-shape attempts) are read back through ImmutableCsrMatrix cell by cell, row by row and by col_indices_of_val '
-        'for q in {0,1,-1,2,7}, plus coordinates {-2,-1,R,R+1}; hand-given well-formed CSR triples for int/float/bool dtypes. '
+        'for q in {0,1,-1,2,7}, at every coordinate in -(R+3)..R+2 x -(C+3)..C+2 (so every negative alias and both overshoots); '
+        'snapshot histories (a matrix taken from the builder after k assignments must keep reading like the dense matrix after k '
+        'assignments while the builder goes on, and a matrix given caller-owned numpy arrays must not change when the caller '
+        'scribbles over them afterwards); hand-given well-formed CSR triples for int/float/bool dtypes. '
         'Every read is compared with the Lean model (errors compared as "raises"). A history is non-trivial when it overwrites '
         'a cell, inserts a smaller column after a larger one in the same row, or touches the first/last row; distinct by (shape, ops).')
 
@@ -20,8 +23,8 @@ def _impl():
 
 def reads_for(R, C, full=True):
     reads = []
-    rows = list(range(R)) + [-2, -1, R, R + 1]
-    cols = list(range(C)) + [-2, -1, C, C + 1]
+    rows = list(range(-(R + 3), R + 3))          # every negative alias of every row, and beyond on both sides
+    cols = list(range(-(C + 3), C + 3))
     for r in rows:
         reads.append(['row', r])
         for q in QUERY_VALUES:
@@ -158,8 +161,55 @@ def evaluate(ctx, cases, stream):
             ctx.violation(f'{case[0] if case[0] == "csr" else "hist"}:{rd[0]}', body)
 
 
-def shrink_and_report(ctx, shape, ops):
-    pass
+def evaluate_snapshots(ctx, cases, stream):
+    """cases: (shape, ops, k).  The matrix taken after the first k assignments is read (a) at once, (b) again after the builder
+    received the remaining assignments; a second matrix built from caller-owned numpy copies of the same arrays is read after the
+    caller overwrote its arrays.  All three must equal the model's reading of the k-prefix."""
+    import numpy as np
+    import warnings
+    CsrMatrixBuilder, ImmutableCsrMatrix = _impl()
+    reqs = [{'op': 'c17.hist', 'nrows': shape[0], 'ncols': shape[1], 'ops': [[r, [c, v]] for r, c, v in ops[:k]],
+             'reads': reads_for(*shape, full=False)} for shape, ops, k in cases]
+    reps = run_driver(reqs)
+    for (shape, ops, k), req, rep in zip(cases, reqs, reps):
+        with warnings.catch_warnings():
+            warnings.simplefilter('ignore')
+            b = CsrMatrixBuilder(shape=shape)
+        try:
+            for r, c, v in ops[:k]:
+                b[r, c] = v
+            m = ImmutableCsrMatrix(b.row, b.col, b.data, shape, dtype=int)
+            own = [np.array(b.row, dtype=int), np.array(b.col, dtype=int)]      # row / col may be numpy arrays, data a sequence
+            m2 = ImmutableCsrMatrix(own[0], own[1], list(b.data), shape, dtype=int)
+            first = [impl_read(m, rd) for rd in req['reads']]
+            for r, c, v in ops[k:]:
+                b[r, c] = v
+            for a in own:
+                if a.size:
+                    a[...] = 0
+            later = [impl_read(m, rd) for rd in req['reads']]
+            later2 = [impl_read(m2, rd) for rd in req['reads']]
+        except Exception as e:  # noqa
+            ctx.violation('snapshot-raises', {'case': {'kind': 'snap', 'shape': list(shape), 'ops': [list(o) for o in ops], 'k': k},
+                                              'impl': f'{type(e).__name__}: {e}'})
+            continue
+        bad = []
+        for which, got in (('at-once', first), ('after-builder-went-on', later), ('after-caller-overwrote-its-arrays', later2)):
+            for rd, ir, mr in zip(req['reads'], got, rep['reads']):
+                if 'ok' in mr and rd[0] == 'cols':
+                    mr = {'ok': sorted(mr['ok'])}
+                if not same(ir, mr):
+                    bad.append({'when': which, 'read': rd, 'impl': ir, 'model': mr})
+                    break
+        canon_case = ['snap', shape, ops, k]
+        nt = 0 < k < len(ops)
+        ctx.case(canon_case, nt, stream, sample={'case': canon_case} if nt else None)
+        ctx.count('reads', 3 * len(req['reads']))
+        if bad:
+            ctx.violation(f'snapshot:{bad[0]["when"]}', {
+                'case': {'kind': 'snap', 'shape': list(shape), 'ops': [list(o) for o in ops], 'k': k}, 'disagreements': bad,
+                'theorem': 'Hpv.Props.C17.builder_reads_like_dense (the matrix is a value: it represents the dense matrix of the '
+                           'prefix it was taken from)'})
 
 
 def random_wf_csr(rng, dtype):
@@ -211,6 +261,13 @@ def run(ctx):
         cases.append(((R, C), ops))
     for i in range(0, len(cases), 1000):
         evaluate(ctx, cases[i:i + 1000], 'random.histories')
+    # snapshots: the matrix is a value
+    cases = []
+    for _ in range(1500 if thorough else 300):
+        R, C = rng.randrange(1, 6), rng.randrange(1, 7)
+        ops = [(rng.randrange(R), rng.randrange(C), rng.choice([1, -1, 2, 3, 7])) for _ in range(rng.randrange(1, 25))]
+        cases.append(((R, C), ops, rng.randrange(0, len(ops) + 1)))
+    evaluate_snapshots(ctx, cases, 'random.snapshots')
     # hand-given well-formed CSR triples with the three dtypes
     cases = [random_wf_csr(rng, dt) for dt in ('int', 'float', 'bool') for _ in range(600 if thorough else 150)]
     evaluate(ctx, cases, 'random.csr-triples')
@@ -218,7 +275,9 @@ def run(ctx):
 
 def replay(ctx, data):
     c = data['case']
-    if c['kind'] == 'hist':
+    if c['kind'] == 'snap':
+        evaluate_snapshots(ctx, [(tuple(c['shape']), [tuple(o) for o in c['ops']], c['k'])], 'replay')
+    elif c['kind'] == 'hist':
         evaluate(ctx, [(tuple(c['shape']), [tuple(o) for o in c['ops']])], 'replay')
     else:
         evaluate(ctx, [('csr', {k: c[k] for k in ('indptr', 'col', 'dat', 'shape', 'dtype')})], 'replay')
